@@ -9,6 +9,8 @@ E1 = "E1 bounded-exhaustive configuration enumeration vs Go reference model"
 E2 = "E2 explicit-state search over API histories on real objects (replay-built successors)"
 E3 = "E3 preemption-bounded controlled scheduler + free-running -race pass"
 
+SWEPT = {"C01","C02","C03","C04","C05","C06","C07","C11","C12","C13","C14","C15","C16","C17","C19"}
+
 CHECKS = {
  "C03": dict(engine="E1", ref="§5 C03",
    technique="bounded-exhaustive enumeration of every shape / broadcast pair / value class within the bound, executed on the real code and compared with a reference model",
@@ -29,7 +31,7 @@ CHECKS = {
  "C01": dict(engine="E2", ref="§5 C01",
    technique="explicit enumeration of all operation DAGs (straight-line programs) up to a node bound x tracked masks x roots, plus sequences and deep families, each executed on the real code and compared with a reference reverse pass; rule applications counted through a hook against a polynomial budget",
    text="Every straight-line program up to the operation bound over an alphabet that exercises each kind of backward rule (operand-reading, result-reading, other-operand-reading, n-ary, shape-changing), with operands drawn from all earlier tensors so that every fan-out/reconvergence pattern occurs, is built and back-propagated on the real code from every root; every tensor's gradient (nil-ness, shape, value) is compared with the model's topological reverse pass; sequences of back-propagations over graphs sharing leaves must add up; the verif hook counts backward-rule applications against (E+1)^2.",
-   note="Trusted: reference reverse pass (validated against finite differences). Bounds: <=3 (4, 5 on a sub-alphabet) operations, two [2]-leaves, families to depth 24 (48)."),
+   note="Trusted: reference reverse pass (validated against finite differences). Bounds: <=3 (4, 5 on a sub-alphabet) operations, two [2]-leaves, families to depth 44 (64), staged sequences (graph built after the previous back-propagation)."),
  "C02": dict(engine="E1", ref="§5 C02",
    technique="bounded-exhaustive enumeration of (operation, operand shapes, arguments, tracked subset, upstream weighting) configurations, real back-propagation vs analytic VJP of the reference model",
    text="For each of the 33 differentiable operations every configuration within the bound (every dim, exponent, index form, Patch source/position, Reshape target, Concat arity, tracked subset, two value assignments, two upstream weightings) is back-propagated on the real code; BackPropagate must succeed and every tracked operand must receive a finite gradient of its own shape equal to the model VJP.",
@@ -102,6 +104,10 @@ def main():
             continue
         c = CHECKS[pid]
         eng = {"E1": E1, "E2": E2, "E3": E3}[c["engine"]]
+        tech, note = c["technique"], c["note"]
+        if pid in SWEPT:
+            tech += "; plus exhaustive length sweeps (every length 1..40/300, powers of two with neighbours, integer constants of the library's current source), grid sweeps over pairs/triples of medium sizes and near-threshold element counts, and soak histories with garbage collections, all against the same reference model (DESIGN 9.7-9.9)"
+            note += " Sweeps: one long dimension at a time, medium pairs/triples, code-derived sizes; not every shape."
         checks.append({
             "property_id": pid,
             "quick_cmd": "/verif/run.sh %s quick" % pid,
@@ -110,8 +116,8 @@ def main():
             "replay_cmd_template": "/verif/run.sh replay {path}",
             "engine": eng,
             "level_claimed": {"category": "model_checking", "text": c["text"], "design_ref": c["ref"]},
-            "level_note": c["note"],
-            "technique": c["technique"],
+            "level_note": note,
+            "technique": tech,
         })
     na = []
     for pid in ALL:
